@@ -121,7 +121,11 @@ fn main() {
     counter!(sc_nonatomic);
 
     // --- C39 ----------------------------------------------------------------------------------
-    for (min, max) in [(1usize, 1usize), (1, 2), (2, 2), (1, 3), (2, 3), (3, 3)] {
+    for (min, max) in [
+        (1usize, 1usize), (1, 2), (2, 2), (1, 3), (2, 3), (3, 3),
+        // larger maxima: sub-majority quorums (max >= 2*min+1) and other non-majority shapes
+        (1, 4), (2, 4), (3, 4), (4, 4), (1, 5), (2, 5), (3, 5), (4, 5), (5, 5),
+    ] {
         let mut flow = hydro_lang::compile::builder::FlowBuilder::new();
         let process = flow.process::<()>();
         let (ok, err, rok, rerr) =
